@@ -23,9 +23,14 @@ def string_is_url(series: pd.Series, state: dict) -> bool:
         return False
 
 
+def _urlparse_or_missing(value):
+    # the relation test ignores missing values, so the cast has to keep them
+    return value if pd.isna(value) else urlparse(value)
+
+
 @URL.register_transformer(String, pd.Series)
 def string_to_url(series: pd.Series, state: dict) -> pd.Series:
-    return pandas_apply(series, urlparse)
+    return pandas_apply(series, _urlparse_or_missing)
 
 
 @URL.contains_op.register
